@@ -223,6 +223,9 @@ def lift(v, typ=None):
         for i, x in enumerate(v):
             arr = z3.Store(arr, i, lift(x, typ.args[0]).t)
         return seq_mk(typ, arr, z3.IntVal(len(v)))
+    if k == 'Tuple' and isinstance(v, tuple) and len(v) == len(typ.args):
+        parts = [lift(x, t) if not isinstance(x, SV) else coerce(x, t) for x, t in zip(v, typ.args)]
+        return SV(typ, zsort(typ).mk(*[p.t for p in parts]))
     if k == 'Int':
         return SV(INT, z3.IntVal(int(v)))
     if k == 'Bool':
